@@ -32,7 +32,8 @@ def families():
     src_i = ("import dataclasses, typing\n@dataclasses.dataclass\nclass InitF:\n    a: int\n    b: int = dataclasses.field(init=False, default=7)\n"
              "    def __post_init__(self):\n        self.b = self.a + 1\n"
              "class NT(typing.NamedTuple):\n    x: int\n    y: str = 'd'\n"
-             "class TD(typing.TypedDict):\n    x: int\n    y: typing.NotRequired[str]\n")
+             "class TD(typing.TypedDict):\n    x: int\n    y: typing.NotRequired[str]\n"
+             "class TD5(typing.TypedDict):\n    alpha: int\n    bravo: int\n    charlie: int\n    delta: int\n    echo: int\n")
     src_r = ("import dataclasses, typing\n@dataclasses.dataclass\nclass R1:\n    v: int\n    nxt: 'typing.Optional[R1]' = None\n"
              "    kids: 'list[R1]' = dataclasses.field(default_factory=list)\n")
     src_p = ("import dataclasses\n@dataclasses.dataclass\nclass Account:\n    owner: str\n    _revision: int = 0\n")
@@ -161,6 +162,11 @@ def families():
         # a rejection must stay a rejection: the same invalid input again, after valid ones, nested
         "typeddict_missing_key": {(1, 1): um(I.TD, lambda: {"y": "s"}), (1, 2): um(I.TD, lambda: {"x": "1", "y": "s"}),
                                   (2, 1): um(list[I.TD], lambda: [{"y": "t"}]), (2, 2): um(dict[str, I.TD], lambda: {"k": {"x": "2"}})},
+        # marshalled key order of TypedDict values (several keys, given in another order than declared)
+        "typeddict_key_order": {(1, 1): ma(I.TD5, lambda: {"delta": 4, "alpha": 1, "charlie": 3, "bravo": 2, "echo": 5}),
+                                (1, 2): (lambda x: typelib.encode(x, t=I.TD5), lambda: {"echo": 5, "delta": 4, "charlie": 3, "bravo": 2, "alpha": 1}),
+                                (2, 1): ma(list[I.TD5], lambda: [{"charlie": 3, "alpha": 1, "echo": 5, "bravo": 2, "delta": 4}]),
+                                (2, 2): um(I.TD5, lambda: {"bravo": "2", "echo": "5", "alpha": "1", "delta": "4", "charlie": "3"})},
         "dateparse": {(1, 1): um(datetime.datetime, lambda: "2020-01-01"), (1, 2): um(datetime.date, lambda: "2020-01-01"),
                       (2, 1): um(datetime.timedelta, lambda: "PT1S"), (2, 2): um(datetime.timedelta, lambda: 1)},
     }
@@ -312,7 +318,35 @@ class Zygote:
             pass
 
 
+class ExecZygote:
+    """A zygote in a freshly started interpreter with another string-hash seed (a fork inherits the parent's): the same
+    cold call there must give the same outcome -- nothing may follow the iteration order of a set of strings."""
+
+    def __init__(self, hashseed: int):
+        import subprocess
+        verif = os.path.dirname(os.path.dirname(os.path.abspath(__file__)))
+        env = dict(os.environ, PYTHONHASHSEED=str(hashseed), PYTHONDONTWRITEBYTECODE="1")
+        code = f"import sys; sys.path.insert(0, {verif!r}); from harness import zygote; zygote.serve(0, 1)"
+        self.p = subprocess.Popen([sys.executable, "-B", "-c", code], stdin=subprocess.PIPE, stdout=subprocess.PIPE,
+                                  stderr=subprocess.DEVNULL, env=env, text=True)
+
+    def ask(self, req):
+        self.p.stdin.write(json.dumps(req) + "\n")
+        self.p.stdin.flush()
+        line = self.p.stdout.readline()
+        if not line:
+            raise RuntimeError("exec zygote died")
+        return json.loads(line)
+
+    def close(self):
+        try:
+            self.p.stdin.close()
+            self.p.wait(timeout=20)
+        except Exception:
+            self.p.kill()
+
+
 FAMILY_NAMES = ["union_unmarshal", "union_marshal", "union_in_list", "instants", "instants_in_list", "text_carriers",
                 "bare_containers", "numbers", "same_name_classes", "string_refs", "recursive", "codec_configs", "dateparse",
                 "build_order", "build_order_nt", "same_routine_inputs", "same_routine_inputs2", "private_fields", "nested_text",
-                "nested_text2", "duration_classes", "temporal_text_targets", "equal_keys", "same_origin_kinds", "same_origin_kinds2", "value_classes", "retry_same_object", "subclass_after_base", "frozen_instance_input", "typeddict_missing_key"]
+                "nested_text2", "duration_classes", "temporal_text_targets", "equal_keys", "same_origin_kinds", "same_origin_kinds2", "value_classes", "retry_same_object", "subclass_after_base", "frozen_instance_input", "typeddict_missing_key", "typeddict_key_order"]
